@@ -659,6 +659,26 @@ class Concatenate(GenericType):
 class Literal(Type):
   value: int | str | bool | TypeU | Constant
 
+  # True == 1 and False == 0 in Python, but Literal[True] and Literal[1] are
+  # different types: compare (and hash) the value together with its type, so
+  # that e.g. the members of Literal[True, 1] are not merged into one.
+
+  def __eq__(self, other):
+    if self is other:
+      return True
+    if not isinstance(other, Literal):
+      return NotImplemented
+    return (
+        type(self.value) is type(other.value) and self.value == other.value
+    )
+
+  def __ne__(self, other):
+    eq = self.__eq__(other)
+    return eq if eq is NotImplemented else not eq
+
+  def __hash__(self):
+    return hash((Literal, type(self.value), self.value))
+
 
 class Annotated(Type):
   base_type: TypeU
